@@ -679,7 +679,7 @@ class SyncInterpreter(BaseInterpreter[TContext, TEvent]):
                         initial_child.id,
                         state.id,
                     )
-                    self._enter_states([initial_child])
+                    self._enter_states([initial_child], event)
                 else:
                     raise InvalidConfigError(
                         f"❌ Initial state '{state.initial}' not found in "
@@ -715,7 +715,7 @@ class SyncInterpreter(BaseInterpreter[TContext, TEvent]):
                     and child.id not in explicit_child_ids
                 ]
                 if regions:
-                    self._enter_states(regions)
+                    self._enter_states(regions, event)
 
             # ⚙️ Schedule any tasks (invokes, timers).
             self._schedule_state_tasks(state)
